@@ -35,6 +35,7 @@ def run(ctx) -> None:
     r10_field_name_tracking(ctx)
     r11_negation_per_name(ctx)
     r12_field_name_condition_tables(ctx)
+    r13_gates_keep_nothing(ctx)
 
 
 # ------------------------------------------------------------------------------------------ R1
@@ -976,3 +977,50 @@ def r12_field_name_condition_tables(ctx) -> None:
     else:
         r.ok("C13.R12", g.qual, "item-level form = per-name form on the item's field, None included", g.loc)
     r.floor("C13.R12", 2)
+
+
+GATE_MUTATORS = {"append", "extend", "insert", "pop", "remove", "clear", "update", "add", "discard", "setdefault", "sort", "reverse", "popitem"}
+
+
+def r13_gates_keep_nothing(ctx) -> None:
+    """What a gate answers depends on the conditions, on what it is asked about and on the *current* state of the pipeline
+    (processing state, what was applied to this rule so far). A gate that stores something on the item or the condition can
+    only do so to answer from it later — for another rule, with another state, after other items were applied."""
+    r, prog = ctx.r, ctx.prog
+    r.rule("C13.R13", "gates answer from the conditions and the current pipeline state only: no match method of a processing item or of a processing condition (and nothing it calls on the item/condition) stores to the item/condition or mutates one of its attributes")
+    roots = []
+    for q, f in prog.funcs.items():
+        if f.cls is None or not f.name.startswith("match") or "self" not in f.params():
+            continue
+        if prog.is_subclass(f.cls.qual, "sigma.processing.pipeline.ProcessingItemBase") or prog.is_subclass(f.cls.qual, "sigma.processing.conditions.base.ProcessingCondition"):
+            roots.append(q)
+    if len(roots) < 10:
+        raise AnalysisError(f"C13.R13: only {len(roots)} gate methods found")
+    reach = ctx.cg.reachable(roots)
+    n = 0
+    for q in sorted(x for x in reach if x in prog.funcs):
+        f = prog.funcs[q]
+        if f.cls is None or "self" not in f.params() or f.name in ("__init__", "__post_init__"):
+            continue
+        if not (prog.is_subclass(f.cls.qual, "sigma.processing.pipeline.ProcessingItemBase") or prog.is_subclass(f.cls.qual, "sigma.processing.conditions.base.ProcessingCondition")):
+            continue
+        n += 1
+        bad = []
+        for x in walk_no_nested(f.node):
+            root = None
+            if isinstance(x, (ast.Attribute, ast.Subscript)) and isinstance(x.ctx, (ast.Store, ast.Del)):
+                root = x
+                while isinstance(root, (ast.Attribute, ast.Subscript)):
+                    root = root.value
+            elif isinstance(x, ast.Call) and isinstance(x.func, ast.Attribute) and x.func.attr in GATE_MUTATORS and isinstance(x.func.value, (ast.Attribute, ast.Subscript)):
+                root = x.func.value
+                while isinstance(root, (ast.Attribute, ast.Subscript)):
+                    root = root.value
+            if isinstance(root, ast.Name) and root.id == "self":
+                bad.append(x)
+        for b in bad:
+            r.violation("C13.R13", q, short(prog.enclosing_stmt(b), 110), "a gate writes to its own item/condition: what it keeps answers a later question — for another rule, another processing state, after other items were applied to the rule", f"{f.module.relpath}:{b.lineno}")
+        if not bad:
+            r.ok("C13.R13", q, "no store to self, no mutating call on an attribute of self", f.loc)
+    r.analysed["C13.gate_methods_checked_for_purity"] = n
+    r.floor("C13.R13", 10)
